@@ -7,6 +7,8 @@ use crate::compiler::{DataItem, OperationType};
 use crate::constants::ConstantType;
 use chrono::Duration;
 use core::ops::Deref;
+use crate::tokinizer::{TokenInfo, TokenInfoStatus, Tokinizer};
+use core::cell::{Cell, RefCell};
 
 const MAX_TD: i64 = i64::MAX / 1000;
 
@@ -276,5 +278,183 @@ pub fn m_replay_to_duration_times() {
     match crate::tokinizer::verif_k_local::to_duration(&cfg, &tk, &f) {
         Ok(TokenType::Duration(d)) => assert!(d.num_seconds() == ((d1 - d2) * 86400 + s1 as i64 - s2 as i64).abs()),
         _ => assert!(false),
+    }
+}
+
+// ---------------------------------------------------------------- translator validation: concrete probes through the real functions
+#[cfg(not(kani))]
+pub fn m_probe_all() {
+    use super::std;
+    use crate::compiler::money::MoneyItem;
+    use crate::compiler::percent::PercentItem;
+    use crate::verif_k::c05::{fields2, two_currency_config};
+    let cfg = blank_config();
+    let s = Session::new();
+    let tk = mk_tokinizer(&cfg, &s);
+    let num = |x: f64| TokenType::Number(x, NumberType::Decimal);
+    let out = |label: &str, v: f64| std::println!("PROBE {} {:e}", label, v);
+    let tok_val = |r: Result<TokenType, String>| -> f64 {
+        match r { Ok(TokenType::Number(v, _)) | Ok(TokenType::Percent(v)) | Ok(TokenType::Money(v, _)) => v, Ok(TokenType::Duration(d)) => d.num_seconds() as f64, _ => f64::NAN }
+    };
+    let l = crate::tokinizer::verif_k_local::number_on(&cfg, &tk, &fields2("number", num(40.0), "p", TokenType::Percent(6.0)));
+    out("number_on", tok_val(l));
+    out("number_of", tok_val(crate::tokinizer::verif_k_local::number_of(&cfg, &tk, &fields2("number", num(40.0), "p", TokenType::Percent(6.0)))));
+    out("number_off", tok_val(crate::tokinizer::verif_k_local::number_off(&cfg, &tk, &fields2("number", num(40.0), "p", TokenType::Percent(6.0)))));
+    out("find_numbers_percent", tok_val(crate::tokinizer::verif_k_local::find_numbers_percent(&cfg, &tk, &fields2("part", num(15.0), "total", num(60.0)))));
+    out("find_total_from_percent", tok_val(crate::tokinizer::verif_k_local::find_total_from_percent(&cfg, &tk, &fields2("number_part", num(20.0), "percent_part", TokenType::Percent(8.0)))));
+    {
+        let (mut c2, a, b) = two_currency_config(4.0, 10.0);
+        c2.currency.insert("bbb".to_string(), b.clone());
+        let tk2 = mk_tokinizer(&c2, &s);
+        out("convert_money", tok_val(crate::tokinizer::verif_k_local::convert_money(&c2, &tk2, &fields2("money", TokenType::Money(6.0, a.clone()), "currency", TokenType::Text("bbb".to_string())))));
+        let r = MoneyItem(6.0, a.clone()).calculate(&c2, true, &MoneyItem(5.0, b.clone()), OperationType::Add).unwrap();
+        out("money_add_money", r.get_underlying_number());
+        let r = MoneyItem(6.0, a.clone()).calculate(&c2, true, &PercentItem(50.0), OperationType::Sub).unwrap();
+        out("money_sub_percent", r.get_underlying_number());
+    }
+    out("number_div", NumberItem(7.0, NumberType::Decimal).calculate(&cfg, true, &NumberItem(2.0, NumberType::Decimal), OperationType::Div).unwrap().get_underlying_number());
+    out("number_div_zero", NumberItem(7.0, NumberType::Decimal).calculate(&cfg, true, &NumberItem(0.0, NumberType::Decimal), OperationType::Div).unwrap().get_underlying_number());
+    {
+        let rc = real_config();
+        let tk3 = en_tokinizer(&rc, &s);
+        out("duration_parse_months", tok_val(crate::tokinizer::verif_k_local::duration_parse(&rc, &tk3, &fields2("duration", num(14.0), "type", TokenType::Text("months".to_string())))));
+        out("as_duration_hours", tok_val(crate::tokinizer::verif_k_local::as_duration(&rc, &tk3, &fields2("source", TokenType::Duration(Duration::seconds(90061)), "type", TokenType::Text("hours".to_string())))));
+    }
+    out("duration_sub", DurationItem(Duration::seconds(500)).calculate(&cfg, true, &DurationItem(Duration::seconds(1700)), OperationType::Sub).unwrap().get_underlying_number());
+    out("as_time", DurationItem(Duration::seconds(-90061)).as_time().num_seconds_from_midnight() as f64);
+    {
+        let t = dt(738000, 86000);
+        let r = TimeItem(t, tz0()).calculate(&cfg, true, &DurationItem(Duration::seconds(90061)), OperationType::Add).unwrap();
+        out("time_add", r.as_any().downcast_ref::<TimeItem>().unwrap().get_time().num_seconds_from_midnight() as f64);
+    }
+    {
+        let mut f: Map<String, Rc<TokenInfo>> = Map::new();
+        f.insert("number".to_string(), mk_info(0, 1, Some(num(1234567890.0))));
+        match crate::tokinizer::verif_k_local::from_unixtime(&cfg, &tk, &f) {
+            Ok(TokenType::DateTime(d, _)) => { out("from_unixtime_sod", d.num_seconds_from_midnight() as f64); out("from_unixtime_days", (d.timestamp().div_euclid(86400) + 719162) as f64); }
+            _ => out("from_unixtime_sod", f64::NAN),
+        }
+        let mut g: Map<String, Rc<TokenInfo>> = Map::new();
+        g.insert("data".to_string(), mk_info(0, 1, Some(TokenType::Date(dt(738000, 0).date(), tz0()))));
+        out("to_unixtime_date", tok_val(crate::tokinizer::verif_k_local::to_unixtime(&cfg, &tk, &g)));
+    }
+    out("number_type_convert", tok_val(crate::tokinizer::verif_k_local::number_type_convert(&cfg, &tk, &fields2("number", num(10.5), "type", TokenType::Text("hex".to_string())))));
+    out("to_duration_dates", tok_val(crate::tokinizer::verif_k_local::to_duration(&cfg, &tk, &fields2("source", TokenType::Date(dt(738000, 0).date(), tz0()), "target", TokenType::Date(dt(737000, 0).date(), tz0())))));
+}
+#[cfg(kani)]
+pub fn m_probe_all() {}
+
+/// small_date natively: (has year, month is a number, day, month, year); oracle = chrono's own from_ymd_opt
+pub fn m_replay_small_date() {
+    use chrono::Datelike;
+    let has_y: bool = vany(); let m_num: bool = vany(); let d: f64 = vany(); let m: f64 = vany(); let y: f64 = vany();
+    let cfg = blank_config();
+    let s = Session::new();
+    let tk = mk_tokinizer(&cfg, &s);
+    let mut f: Map<String, Rc<TokenInfo>> = Map::new();
+    f.insert("day".to_string(), mk_info(0, 1, Some(TokenType::Number(d, NumberType::Decimal))));
+    f.insert("month".to_string(), mk_info(2, 3, Some(if m_num { TokenType::Number(m, NumberType::Decimal) } else { TokenType::Month(m as u32) })));
+    if has_y { f.insert("year".to_string(), mk_info(4, 5, Some(TokenType::Number(y, NumberType::Decimal)))); }
+    let year = if has_y { y as i32 } else { chrono::Utc::now().date_naive().year() };
+    let want = chrono::NaiveDate::from_ymd_opt(year, m as u32, d as u32);
+    match crate::tokinizer::small_date(&cfg, &tk, &f) {
+        Ok(TokenType::Date(got, _)) => assert!(Some(got) == want),
+        Ok(_) => assert!(false),
+        Err(_) => assert!(want.is_none()),
+    }
+}
+
+/// parse_timezone natively through the real regex: (negative, hours, has minutes, minutes)
+#[cfg(not(kani))]
+pub fn m_replay_parse_timezone() {
+    let neg: bool = vany(); let h: u8 = vany(); let has_m: bool = vany(); let m: u8 = vany();
+    vassume(h <= 19 && m <= 59);
+    let cfg = real_config();
+    let text = if has_m { alloc::format!("GMT{}{}:{:02}", if neg { "-" } else { "+" }, h, m) } else { alloc::format!("GMT{}{}", if neg { "-" } else { "+" }, h) };
+    let re = &cfg.token_parse_regex.get("timezone").expect("timezone regex")[0];
+    let cap = re.captures(&text).expect("zone syntax");
+    let got = crate::tools::parse_timezone(&cfg, &cap).expect("zone").1;
+    let want = (if neg { -1 } else { 1 }) * (60 * h as i32 + if has_m { m as i32 } else { 0 });
+    assert!(got == want);
+}
+#[cfg(kani)]
+pub fn m_replay_parse_timezone() {}
+
+/// based number arithmetic natively: (op [Add,Div,Mul,Sub], NumberType discriminant, x, y)
+pub fn m_replay_based_calc() {
+    let k: u8 = vany(); let t: u8 = vany(); let x: f64 = vany(); let y: f64 = vany();
+    vassume(k < 4 && t < 5);
+    let cfg = blank_config();
+    let nt = match t { 0 => NumberType::Decimal, 1 => NumberType::Octal, 2 => NumberType::Hexadecimal, 3 => NumberType::Binary, _ => NumberType::Raw };
+    let op = match k { 0 => OperationType::Add, 1 => OperationType::Div, 2 => OperationType::Mul, _ => OperationType::Sub };
+    let r = NumberItem(x, nt).calculate(&cfg, true, &NumberItem(y, NumberType::Decimal), op).expect("computed");
+    let n = r.as_any().downcast_ref::<NumberItem>().expect("number");
+    assert!(n.1 == nt);
+    let want = match k { 0 => x + y, 1 => if y == 0.0 { 0.0 } else { x / y }, 2 => x * y, _ => x - y };
+    assert!((n.0 - want).abs() <= 1e-9 * (x.abs() + y.abs() + want.abs()) || n.0 == want);
+}
+
+// ---------------------------------------------------------------- C03: native replay of a straight-line program
+fn c03_ti(start: usize, text: &str, t: TokenType) -> Rc<TokenInfo> {
+    Rc::new(TokenInfo { start, end: start + text.len(), token_type: RefCell::new(Some(t)), original_text: text.to_string(), status: Cell::new(TokenInfoStatus::Active) })
+}
+
+/// (n, n template indices, n constants): the program of engine M's statement templates through the real
+/// update_token_variables / token_generator / token_cleaner / missing_token_adder / parser / interpreter on one
+/// session; oracle: a reference environment (latest binding wins, longest name wins, failing lines change nothing).
+/// Template order must match lib/specs_m.py c03_statements(): per name (x, y, 'x y'): =c, =self+c, use, parse-fail,
+/// eval-fail; then y=x, x='x y'*c.
+pub fn m_replay_program() {
+    use crate::compiler::Interpreter;
+    use crate::syntax::SyntaxParser;
+    let n: u8 = vany();
+    vassume(n >= 1 && n <= 6);
+    let mut prog = [0u8; 6];
+    let mut i = 0usize;
+    while i < n as usize { prog[i] = vany(); vassume(prog[i] < 17); i += 1; }
+    let mut cs = [0f64; 6];
+    i = 0;
+    while i < n as usize { cs[i] = vany(); i += 1; }
+    let cfg = blank_config();
+    let session = Session::new();
+    let names: [&[&str]; 3] = [&["x"], &["y"], &["x", "y"]];
+    let mut env: [Option<f64>; 3] = [None, None, None];
+    i = 0;
+    while i < n as usize {
+        let t = prog[i] as usize;
+        let c = cs[i];
+        let (lhs, kind, src): (Option<usize>, u8, usize) = if t < 15 { let nm = t / 5; match t % 5 { 0 => (Some(nm), 0, 0), 1 => (Some(nm), 1, nm), 2 => (None, 2, nm), 3 => (Some(nm), 3, 0), _ => (Some(nm), 4, 0) } }
+            else if t == 15 { (Some(1), 5, 0) } else { (Some(0), 6, 2) };
+        let mut tk = mk_tokinizer(&cfg, &session);
+        let mut pos = 0usize;
+        let push_name = |tk: &mut Tokinizer, pos: &mut usize, nm: usize| { for w in names[nm].iter() { tk.token_infos.push(c03_ti(*pos, w, TokenType::Text(w.to_string()))); *pos += w.len() + 1; } };
+        let push_op = |tk: &mut Tokinizer, pos: &mut usize, ch: char| { tk.token_infos.push(c03_ti(*pos, "o", TokenType::Operator(ch))); *pos += 2; };
+        let push_num = |tk: &mut Tokinizer, pos: &mut usize, v: f64| { tk.token_infos.push(c03_ti(*pos, "1", TokenType::Number(v, NumberType::Decimal))); *pos += 2; };
+        if let Some(l) = lhs { push_name(&mut tk, &mut pos, l); push_op(&mut tk, &mut pos, '='); }
+        let want: Option<f64> = match kind {
+            0 => { push_num(&mut tk, &mut pos, c); Some(c) }
+            1 | 2 => { push_name(&mut tk, &mut pos, src); push_op(&mut tk, &mut pos, '+'); push_num(&mut tk, &mut pos, c); env[src].map(|v| v + c) }
+            3 => { push_num(&mut tk, &mut pos, c); push_op(&mut tk, &mut pos, '*'); push_op(&mut tk, &mut pos, ')'); None }
+            4 => { push_num(&mut tk, &mut pos, c); push_op(&mut tk, &mut pos, '*'); tk.token_infos.push(c03_ti(pos, "1h", TokenType::Duration(chrono::Duration::seconds(3600)))); None }
+            5 => { push_name(&mut tk, &mut pos, 0); env[0] }
+            _ => { push_name(&mut tk, &mut pos, src); push_op(&mut tk, &mut pos, '*'); push_num(&mut tk, &mut pos, c); env[src].map(|v| v * c) }
+        };
+        vassume(kind == 0 || kind == 3 || kind == 4 || env[if kind == 5 { 0 } else { src }].is_some());
+        crate::variable::update_token_variables(&mut tk);
+        tk.token_generator();
+        tk.token_cleaner();
+        crate::tokinizer::verif_k_local::missing_token_adder(&mut tk);
+        let got: Option<f64> = {
+            let mut p = SyntaxParser::new(&session, &tk);
+            match p.parse() {
+                Ok(ast) => match Interpreter::execute(&cfg, Rc::new(ast), &session) { Ok(a) => crate::verif_k::c02::item_number(a.deref()), Err(_) => None },
+                Err(_) => None,
+            }
+        };
+        match want {
+            Some(w) => { let g = got.expect("the line evaluates"); assert!((g - w).abs() <= 1e-9 * (1.0 + w.abs())); if let Some(l) = lhs { env[l] = Some(w); } }
+            None => assert!(got.is_none()),
+        }
+        i += 1;
     }
 }
